@@ -1280,7 +1280,7 @@ impl BufferParser for Parser {
                         } else {
                             1
                         };
-                        (0..num).for_each(|_| buf.scroll_up(current_layer));
+                        (0..min(num, buf.terminal_state.get_height())).for_each(|_| buf.scroll_up(current_layer));
                         return Ok(CallbackAction::Update);
                     }
                     'T' => {
@@ -1291,7 +1291,7 @@ impl BufferParser for Parser {
                         } else {
                             1
                         };
-                        (0..num).for_each(|_| buf.scroll_down(current_layer));
+                        (0..min(num, buf.terminal_state.get_height())).for_each(|_| buf.scroll_down(current_layer));
                         return Ok(CallbackAction::Update);
                     }
                     'b' => {
